@@ -7,7 +7,7 @@ use crate::case::Case;
 use crate::coord::{self, Batch, Stats};
 use serde_json::Value;
 
-pub const KINDS: [&str; 7] = ["C01", "C02", "C03a", "C03q", "C12", "C13", "C16"];
+pub const KINDS: [&str; 10] = ["C01", "C02", "C03a", "C03q", "C12", "C13", "C16", "C14f", "C11m", "C16f"];
 
 pub fn plan(n: u64) -> Vec<Batch> {
     let mut v = Vec::new();
@@ -28,6 +28,10 @@ fn case_for(kind: &str, seed: u64, idx: u64, uni: &UniCfg) -> Case {
         "C03q" => super::c03::gen_case(seed, idx, uni, false),
         "C12" => super::c12::gen_conc_case(seed, idx, uni),
         "C13" => super::c13::gen_conc_case(seed, idx, uni),
+        // seeded faults (C14 faulted twins), the mixed workload (faults, attackers, procfs), first-use C16
+        "C14f" => super::c14::gen_faulted_case(seed, idx, uni),
+        "C11m" => super::mixed::mixed_case(seed, idx, uni, "C11"),
+        "C16f" => super::c16::gen_case(seed, idx, uni, false),
         _ => super::c16::gen_case(seed, idx, uni, false),
     }
 }
@@ -53,7 +57,11 @@ pub fn run(u: &mut Universe, b: &Batch, st: &mut Stats) {
         st.evaluations += 1;
         st.steps += out.steps as u64;
         let outcomes: Vec<String> = out.records.iter().map(|r| format!("T{}#{}:{}", r.thread, r.idx, r.outcome.class())).collect();
-        st.records.push((idx + if b.uni.no_openat2 { 50_000 } else { 0 }, format!("{:016x} {:016x} steps={} {}", out.trace_hash, out.interleaving_hash, out.steps, outcomes.join(","))));
+        let mut dbg = format!(" attacks_applied={:?} attacks_failed={} faults={}", out.attacks_applied, out.attacks_failed, out.records.iter().map(|r| r.faults_inside).sum::<usize>());
+        if std::env::var_os("SELFTEST_DEBUG").is_some() {
+            dbg.push_str(&format!(" decisions={}", out.decisions.iter().map(|d| d.to_json().to_string()).collect::<Vec<_>>().join(";")));
+        }
+        st.records.push((idx + if b.uni.no_openat2 { 50_000 } else { 0 }, format!("{:016x} {:016x} steps={} {}{dbg}", out.trace_hash, out.interleaving_hash, out.steps, outcomes.join(","))));
         if u.poisoned {
             return;
         }
@@ -67,12 +75,25 @@ pub fn check(n: u64) -> i32 {
     let ma: std::collections::BTreeMap<u64, String> = a.stats.records.iter().cloned().collect();
     let mut bad = 0;
     let mut interference = 0;
+    let mut kernel_eloop = 0;
     let mut compared = 0;
     for (name, other) in [("3 universes in parallel", &b), ("1 universe at a time", &c)] {
         for (idx, rec) in &other.stats.records {
             if let Some(ra) = ma.get(idx) {
                 compared += 1;
                 if ra != rec {
+                    // the kernel's own answer for 21..40-link chains is not a function of the tree
+                    // (DESIGN 9.2): in the K universe an outcome that flips between ELOOP and
+                    // something else is the kernel disagreeing with itself, not the simulator
+                    let eloop_flip = *idx % 100_000 < 50_000 && {
+                        let oa: Vec<&str> = ra.split(' ').nth(3).unwrap_or("").split(',').collect();
+                        let ob: Vec<&str> = rec.split(' ').nth(3).unwrap_or("").split(',').collect();
+                        oa.len() == ob.len() && oa.iter().zip(ob.iter()).all(|(x, y)| x == y || x.ends_with("ELOOP") != y.ends_with("ELOOP")) && oa != ob
+                    };
+                    if eloop_flip {
+                        kernel_eloop += 1;
+                        continue;
+                    }
                     if ra.contains("EAGAIN") || rec.contains("EAGAIN") || ra.contains("SafetyViolation") != rec.contains("SafetyViolation") {
                         interference += 1;
                         continue;
@@ -89,7 +110,7 @@ pub fn check(n: u64) -> i32 {
         println!("HARNESS-ERROR: {e}");
     }
     println!(
-        "selftest: {} runs x 3 executions (16 / 3 / 1 universes in parallel, different processes), {compared} comparisons, {bad} differing event logs, {interference} differing only through openat2 EAGAIN interference, {} steps",
+        "selftest: {} runs x 3 executions (16 / 3 / 1 universes in parallel, different processes), {compared} comparisons, {bad} differing event logs, {interference} differing only through openat2 EAGAIN interference, {kernel_eloop} differing only in an outcome that flips to/from ELOOP in the openat2 universe (the kernel's own 21-40 link answers), {} steps",
         ma.len(),
         a.stats.steps
     );
